@@ -28,7 +28,7 @@ def fingerprint(diag):
 
 
 def report(ctx, bad, texts, label):
-    for line, diag, ev in bad:
+    for line, diag, ev in sorted(bad, key=lambda b: (len(json.dumps(b[2]['ds'])), b[0])):
         ctx.violation(fingerprint(diag), "%s: %s -> %s -> %s %s" % (label, json.dumps(ev["ds"])[:300], (texts.get(line) or "")[:300],
                                                                   json.dumps(ev.get("rtds"))[:300], ev.get("msg", "")[:200]),
                       {"event": ev, "json_text": texts.get(line), "diagnosis": diag, "source": label})
